@@ -21,6 +21,15 @@ pub struct Session {
     base_settings: Arc<BaseSettings>,
 }
 
+#[cfg(feature = "verif-hooks")]
+impl Session {
+    /// Effective settings of this session (verification hook).
+    #[doc(hidden)]
+    pub fn verif_settings(&self) -> crate::verif_hooks::SettingsSnapshot {
+        crate::verif_hooks::snapshot(&self.base_settings)
+    }
+}
+
 impl Session {
     /// Create a new `Session` with default settings.
     pub fn new() -> Session {
